@@ -522,6 +522,9 @@ def build_zoo(ctx):
     ]
     for nm, th, dup in pss:
         add('ProductSpace:' + nm, th, dup=dup)
+    # --- randomly generated spaces, each with near-duplicates differing in exactly one field
+    for name, thunk in random_spaces(ctx):
+        add(name, thunk, dup=False)
     # --- composite sets over non-composite members
     ip1, ip2, ip3 = odl.IntervalProd(0, 1), odl.IntervalProd([0, 0], [1, 1]), \
         odl.IntervalProd([0, 0, 0], [1, 1, 1])
@@ -555,6 +558,126 @@ def build_zoo(ctx):
         add('{}{}'.format(cls_name, cb), lambda cls=cls, cb=cb: cls(*[members[k] for k in cb]),
             dup=False)
     return R
+
+
+RW = {}   # pool of weight arrays shared between random recipes (identity matters)
+
+
+def _rw(shape):
+    key = tuple(shape)
+    if key not in RW:
+        n = int(np.prod(shape)) if shape else 1
+        RW[key] = (np.arange(1, n + 1, dtype=float).reshape(shape),
+                   np.arange(1, n + 1, dtype=float).reshape(shape))   # equal content, 2 objects
+    return RW[key]
+
+
+def random_spaces(ctx):
+    """(name, thunk) of random tensor / discretized / product spaces.  Every base parameter
+    set is followed by variants in which exactly ONE field is changed (and one exact copy)."""
+    import odl
+    rng = ctx.rng
+    nbase = 2 if ctx.quick else 14
+
+    def make_t(p):
+        kw = {}
+        if p['w'] == 'const':
+            kw['weighting'] = p['c']
+        elif p['w'] == 'arr0':
+            kw['weighting'] = _rw(p['shape'])[0]
+        elif p['w'] == 'arr1':
+            kw['weighting'] = _rw(p['shape'])[1]
+        if p['e'] != 2.0:
+            kw['exponent'] = p['e']
+        return odl.tensor_space(p['shape'], dtype=p['dt'], **kw)
+
+    def make_d(p):
+        if p['grid'] == 'uniform':
+            part = odl.uniform_partition(p['lo'], p['hi'], p['shape'], nodes_on_bdry=p['nodes'])
+        else:
+            vecs = []
+            for lo, hi, n, j in zip(p['lo'], p['hi'], p['shape'], p['moved']):
+                v = np.linspace(lo, hi, n + 2)[1:-1] if not p['nodes'] else np.linspace(lo, hi, n)
+                v = np.array(v)
+                if n >= 3:
+                    v[1 + j % (n - 2)] += (hi - lo) / (8.0 * n)
+                vecs.append(v)
+            part = odl.RectPartition(odl.IntervalProd(p['lo'], p['hi']), odl.RectGrid(*vecs))
+        tp = dict(p, shape=tuple(p['shape']))
+        return odl.DiscretizedSpace(part, make_t(tp))
+
+    def variants(p, fields):
+        out = [('copy', dict(p))]
+        for f, alts in fields.items():
+            alts = [a for a in alts if a != p[f]]
+            if alts:
+                q = dict(p)
+                q[f] = rng.choice(alts)
+                out.append((f, q))
+        return out
+    float_dts = ['float64', 'float32', 'complex128']
+    for b in range(nbase):
+        shape = rng.choice([(3,), (4,), (2, 3), (3, 2), (2, 2, 2), (1, 4)])
+        p = {'shape': shape, 'dt': rng.choice(float_dts), 'w': rng.choice(['none', 'const', 'arr0']),
+             'c': rng.choice([0.5, 2.0, 3.0]), 'e': rng.choice([1.0, 2.0, 2.0, float('inf')])}
+        fields = {'shape': [(3,), (4,), (2, 3), (3, 2), (6,)], 'dt': float_dts + ['float16'],
+                  'w': ['none', 'const', 'arr0', 'arr1'], 'e': [1.0, 2.0, 1.5, float('inf')]}
+        if p['w'] == 'const':
+            fields['c'] = [0.5, 2.0, 3.0]
+        if p['w'].startswith('arr') and p['dt'] == 'float32':
+            p['dt'] = 'float64'   # float64 weights cannot be cast to a narrower space dtype
+        for f, q in [('base', p)] + variants(p, fields):
+            if q['w'].startswith('arr') and q['dt'] in ('float32', 'float16'):
+                continue
+            yield ('NumpyTensorSpace:rnd{}/{}{}'.format(b, f, sorted(q.items())),
+                   lambda q=q: make_t(q))
+    for b in range(nbase):
+        d = rng.choice([1, 1, 2])
+        lo = [rng.randint(-4, 2) / 2 for _ in range(d)]
+        hi = [l + rng.randint(1, 6) / 2 for l in lo]
+        p = {'lo': lo, 'hi': hi, 'shape': tuple(rng.randint(3, 5) for _ in range(d)),
+             'nodes': rng.choice([False, True]), 'grid': rng.choice(['uniform', 'nonuniform']),
+             'moved': [rng.randint(0, 3) for _ in range(d)],
+             'dt': rng.choice(['float64', 'float32']), 'w': rng.choice(['none', 'const']),
+             'c': rng.choice([0.5, 2.0]), 'e': rng.choice([1.0, 2.0])}
+        fields = {'lo': [[l - 0.5 for l in lo]], 'hi': [[h + 0.5 for h in hi]],
+                  'shape': [tuple(n + 1 for n in p['shape'])], 'nodes': [False, True],
+                  'grid': ['uniform', 'nonuniform'],
+                  'moved': [[m + 1 for m in p['moved']]] if p['grid'] == 'nonuniform' else [],
+                  'dt': ['float64', 'float32', 'complex128'], 'w': ['none', 'const'],
+                  'e': [1.0, 2.0, float('inf')]}
+        for f, q in [('base', p)] + variants(p, fields):
+            yield ('DiscretizedSpace:rnd{}/{}{}'.format(b, f, sorted(q.items())),
+                   lambda q=q: make_d(q))
+    comps = [lambda: odl.rn(2), lambda: odl.rn(3), lambda: odl.rn(2, dtype='float32'),
+             lambda: odl.rn(2, weighting=2.0), lambda: odl.uniform_discr(0, 1, 2),
+             lambda: odl.ProductSpace(odl.rn(2), 2), lambda: odl.cn(2)]
+    for b in range(nbase):
+        real = [0, 1, 2, 3, 4, 5]
+        n = rng.randint(1, 3)
+        p = {'comps': tuple(rng.choice(real) for _ in range(n)),
+             'w': rng.choice(['none', 'const', 'arr0']), 'c': rng.choice([0.5, 2.0]),
+             'e': rng.choice([1.0, 2.0, float('inf')])}
+
+        def make_p(q):
+            kw = {}
+            if q['w'] == 'const':
+                kw['weighting'] = q['c']
+            elif q['w'] in ('arr0', 'arr1'):
+                kw['weighting'] = _rw((len(q['comps']),))[int(q['w'][-1])]
+            if q['e'] != 2.0:
+                kw['exponent'] = q['e']
+            return odl.ProductSpace(*[comps[i]() for i in q['comps']], **kw)
+        alt_comps = list(p['comps'])
+        k = rng.randrange(n)
+        alt_comps[k] = rng.choice([i for i in real if i != alt_comps[k]])
+        fields = {'comps': [tuple(alt_comps), p['comps'] + (rng.choice(real),)],
+                  'w': ['none', 'const', 'arr0', 'arr1'], 'e': [1.0, 2.0, float('inf')]}
+        if p['w'] == 'const':
+            fields['c'] = [0.5, 2.0]
+        for f, q in [('base', p)] + variants(p, fields):
+            yield ('ProductSpace:rnd{}/{}{}'.format(b, f, sorted(q.items())),
+                   lambda q=q: make_p(q))
 
 
 def instantiate(ctx, recipes):
